@@ -913,8 +913,8 @@ namespace yy {
 #line 157 "parser.yy"
         {
             set_boolean s;
-            s.insert(rcp_static_cast<const Boolean>(yystack_[2].value.as < SymEngine::RCP<const SymEngine::Basic> > ()));
-            s.insert(rcp_static_cast<const Boolean>(yystack_[0].value.as < SymEngine::RCP<const SymEngine::Basic> > ()));
+            s.insert(SymEngine::parse_boolean_operand(yystack_[2].value.as < SymEngine::RCP<const SymEngine::Basic> > ()));
+            s.insert(SymEngine::parse_boolean_operand(yystack_[0].value.as < SymEngine::RCP<const SymEngine::Basic> > ()));
             yylhs.value.as < SymEngine::RCP<const SymEngine::Basic> > () = rcp_static_cast<const Basic>(logical_or(s));
         }
 #line 921 "parser.tab.cc"
@@ -924,8 +924,8 @@ namespace yy {
 #line 165 "parser.yy"
         {
             set_boolean s;
-            s.insert(rcp_static_cast<const Boolean>(yystack_[2].value.as < SymEngine::RCP<const SymEngine::Basic> > ()));
-            s.insert(rcp_static_cast<const Boolean>(yystack_[0].value.as < SymEngine::RCP<const SymEngine::Basic> > ()));
+            s.insert(SymEngine::parse_boolean_operand(yystack_[2].value.as < SymEngine::RCP<const SymEngine::Basic> > ()));
+            s.insert(SymEngine::parse_boolean_operand(yystack_[0].value.as < SymEngine::RCP<const SymEngine::Basic> > ()));
             yylhs.value.as < SymEngine::RCP<const SymEngine::Basic> > () = rcp_static_cast<const Basic>(logical_and(s));
         }
 #line 932 "parser.tab.cc"
@@ -935,8 +935,8 @@ namespace yy {
 #line 173 "parser.yy"
         {
             vec_boolean s;
-            s.push_back(rcp_static_cast<const Boolean>(yystack_[2].value.as < SymEngine::RCP<const SymEngine::Basic> > ()));
-            s.push_back(rcp_static_cast<const Boolean>(yystack_[0].value.as < SymEngine::RCP<const SymEngine::Basic> > ()));
+            s.push_back(SymEngine::parse_boolean_operand(yystack_[2].value.as < SymEngine::RCP<const SymEngine::Basic> > ()));
+            s.push_back(SymEngine::parse_boolean_operand(yystack_[0].value.as < SymEngine::RCP<const SymEngine::Basic> > ()));
             yylhs.value.as < SymEngine::RCP<const SymEngine::Basic> > () = rcp_static_cast<const Basic>(logical_xor(s));
         }
 #line 943 "parser.tab.cc"
@@ -962,7 +962,7 @@ namespace yy {
 
   case 21: // expr: '~' expr
 #line 190 "parser.yy"
-        { yylhs.value.as < SymEngine::RCP<const SymEngine::Basic> > () = rcp_static_cast<const Basic>(logical_not(rcp_static_cast<const Boolean>(yystack_[0].value.as < SymEngine::RCP<const SymEngine::Basic> > ()))); }
+        { yylhs.value.as < SymEngine::RCP<const SymEngine::Basic> > () = rcp_static_cast<const Basic>(logical_not(SymEngine::parse_boolean_operand(yystack_[0].value.as < SymEngine::RCP<const SymEngine::Basic> > ()))); }
 #line 967 "parser.tab.cc"
     break;
 
